@@ -75,7 +75,17 @@ func (r *Report) undecided(rule, fn, construct, pos, reason string) {
 func (r *Report) info(rule, fn, construct, pos, reason string) {
 	r.add(&Obligation{Rule: rule, Func: fn, Construct: construct, Verdict: Info, Pos: pos, Reason: reason})
 }
-func (r *Report) floor(rule string, n int) { r.Floors[rule] = n }
+
+// floor: the instance count below which a rule is taken to have lost sight of the code it was written for. The number given
+// is what was counted by hand on the pinned tree; a behaviour-preserving extract-method legitimately merges duplicated
+// sites into one, so the check fails only when fewer than a third of them (at least one) are still seen.
+func (r *Report) floor(rule string, n int) {
+	f := n / 3
+	if f < 1 {
+		f = 1
+	}
+	r.Floors[rule] = f
+}
 func (r *Report) note(f string, a ...interface{}) {
 	r.Notes = append(r.Notes, fmt.Sprintf(f, a...))
 }
